@@ -87,7 +87,10 @@ func isTrustedProxy(remoteIP *string, trustedProxyCIDRs []*net.IPNet) bool {
 	if ip == nil {
 		return false
 	}
-	if len(trustedProxyCIDRs) == 0 {
+	// nil means no CIDR list was configured: every proxy is trusted. A
+	// configured list whose entries were all invalid is empty but not nil and
+	// trusts nobody.
+	if trustedProxyCIDRs == nil {
 		return true
 	}
 	for _, cidr := range trustedProxyCIDRs {
